@@ -78,8 +78,10 @@ func (e *v07rEnv) add(ev v07rEv) { // callers hold e.mu
 
 type v07rIO struct{ e *v07rEnv }
 
-func (io *v07rIO) ReceiveMessage() (*protocol.UDPMessage, error) { return nil, errors.New("v07r: unused") }
-func (io *v07rIO) CheckUDP(string) error                         { return nil }
+func (io *v07rIO) ReceiveMessage() (*protocol.UDPMessage, error) {
+	return nil, errors.New("v07r: unused")
+}
+func (io *v07rIO) CheckUDP(string) error { return nil }
 func (io *v07rIO) SendMessage(buf []byte, m *protocol.UDPMessage) error {
 	io.e.mu.Lock()
 	io.e.add(v07rEv{k: 'S', sid: m.SessionID})
